@@ -486,7 +486,24 @@ func xpkgSets() []*Set {
 	cm.d.Options = &descriptorpb.MessageOptions{Deprecated: proto.Bool(true)}
 	pc.msg(cm)
 	pub := simpleSet("xpkg-import-public", pa, pb, pc)
-	return []*Set{all, ms, ss, same, pub}
+	// two proto packages generated into ONE Go package: the holder's fields refer to types of the other file, which is
+	// "local" to the Go package but foreign to the proto package (and may or may not be generated in the same run)
+	ha := newFile("xonego", "a", "vf.xonego.a")
+	ha.dep("zzgen/xonego/b.proto")
+	hm := newMsg(".vf.xonego.a", "Holder")
+	hm.add(repeated(field("items", 1, kindSpec{t: tMessage, name: ".vf.xonego.b.Item"})))
+	hm.add(field("one", 2, kindSpec{t: tMessage, name: ".vf.xonego.b.Item"}))
+	hm.add(repeated(field("kinds", 3, kindSpec{t: tEnum, name: ".vf.xonego.b.ItemKind"})))
+	hm.add(field("note", 4, kindSpec{t: tString}))
+	ha.msg(hm)
+	hb := newFile("xonego", "b", "vf.xonego.b")
+	im := newMsg(".vf.xonego.b", "Item")
+	im.add(field("id", 1, kindSpec{t: tSint64}))
+	im.add(field("name", 2, kindSpec{t: tString}))
+	hb.msg(im)
+	hb.enum(enum("ItemKind", "ITEM_KIND_ZERO", 0, "ITEM_KIND_ONE", 1))
+	onego := simpleSet("xpkg-one-go-package", hb, ha)
+	return []*Set{all, ms, ss, same, pub, onego}
 }
 
 // ---------------------------------------------------------------------------
